@@ -1,4 +1,5 @@
 import Iavl.Lemmas.Versions
+import Iavl.Lemmas.Twin
 /-
   C09 — rollback erases the future (version-machine level; holds for the versioned map and the tree
   machine alike, which answer identically by C01).
@@ -20,6 +21,16 @@ theorem load_for_overwriting (s s' : VState C) (target lat : Nat) (hl : s.load t
 theorem delete_versions_from (s : VState C) (n w : Nat) :
     findVer (s.step ct (.delfrom n)).1.versions w = if w < n then findVer s.versions w else none :=
   delfrom_effect ct s n w
+
+/-- **the twin statement**: `LoadVersionForOverwriting(target)` leaves exactly the state obtained
+    by loading `target` in a store whose history ended at `target` (`truncate`), which then reports
+    `target` as its latest version. The machine being a function of its state, every later read,
+    commit number, hash, deletion and reopening is the same as in the history that never had the
+    later versions. (`AscV`: versions listed in ascending order, which commits maintain.) -/
+theorem rollback_equals_history_that_ended (s s' : VState C) (target lat : Nat) (ht : target ≠ 0)
+    (ha : AscV s.versions) (hl : s.load target = some (s', lat)) :
+    (truncate s target).load target = some ((s.step ct (.loadow target)).1, target) :=
+  rollback_is_truncation ct s s' target lat ht ha hl
 
 /-- a failed rollback target leaves the machine unchanged -/
 theorem loadow_missing (s : VState C) (target : Nat) (h : s.load target = none) :
